@@ -47,6 +47,12 @@ func TestVerif(t *testing.T) {
 }
 
 var registry = map[string]func(t *testing.T, c *Collector){
+	"C06": func(t *testing.T, c *Collector) {
+		c.res.Rule = "all interleavings (<= bound preemptions) of one index-GC or primary-GC cycle running as a thread (every file-system call of the cycle is a scheduling point) with a caller thread aimed at keys whose records live in the files being collected, from multi-file initial states with superseded record lists and freed records; oracle: no call fails, history + quiescent reads linearizable, Flush+Close+reopen reads the same; non-trivial = two threads alternated on the same lock or file"
+		scs := c06Scenarios(c.job.Tier)
+		c.res.Bound = fmt.Sprintf("%d scenarios, preemption bound %d", len(scs), scs[0].Bound)
+		runConcScenarios(t, c, scs)
+	},
 	"C05": func(t *testing.T, c *Collector) {
 		c.res.Rule = "all interleavings (<= bound preemptions) at lock-acquisition and file-system-call granularity of 2-3 caller threads (1-2 calls each on keys sharing a bucket and stored prefixes) with or without a concurrent Flush, from 6 initial states; oracle: every call returns without error, porcupine finds a linearization of the call/return history extended by quiescent final reads; non-trivial = two threads alternated on the same lock or file"
 		scs := c05Scenarios(c.job.Tier)
